@@ -1050,3 +1050,100 @@ Qed.
 Theorem not_sound b : exists c, unaryNot (CB b) = Ok c /\
   seen c = (KBool, 1, 1 - (if b then 1 else 0)).
 Proof. eexists; split; [reflexivity|]. destruct b; reflexivity. Qed.
+
+(* ------------------------------------------------------------------ *)
+(* the constant table: constants interned by name                       *)
+Lemma BitLen_nonneg m : 0 <= BitLen m.
+Proof.
+  unfold BitLen. destruct (isSmall m); [lia|].
+  unfold bitlen_abs. destruct (big m =? 0); [lia|]. pose proof (Z.log2_nonneg (Z.abs (big m))). lia.
+Qed.
+
+(* Same name = same printed value [mval].  For constants produced by
+   Generator.Constant the container is a function of that value, so two constants
+   of one name carry the same mpa.Int.  (A small mpa.Int holds a 64-bit value; a
+   big one is never negative — both are invariants of mpint.go.) *)
+Definition fits (v : mint) : Prop :=
+  (isSmall v = true -> - 2 ^ 63 <= mval v < 2 ^ 64) /\ (isSmall v = false -> 0 <= mval v).
+
+Lemma BitLen_container v1 v2 : fits v1 -> fits v2 -> mval v1 = mval v2 ->
+  contb (BitLen v1) = contb (BitLen v2).
+Proof.
+  intros [F1 G1] [F2 G2] He. unfold BitLen, small, big.
+  destruct (isSmall v1) eqn:E1, (isSmall v2) eqn:E2; rewrite <- ?He; try reflexivity.
+  - specialize (F1 eq_refl). specialize (G2 eq_refl). rewrite <- He in G2.
+    rewrite u64_wrap. unfold u64. rewrite Z.mod_small by lia.
+    unfold bitlen_abs. destruct (mval v1 =? 0) eqn:E0.
+    + apply Z.eqb_eq in E0. rewrite E0. reflexivity.
+    + apply Z.eqb_neq in E0. rewrite Z.abs_eq by lia.
+      pose proof (Z.log2_nonneg (mval v1)). rewrite Z.max_r by lia. reflexivity.
+  - specialize (F2 eq_refl). specialize (G1 eq_refl). rewrite <- He in F2.
+    rewrite u64_wrap. unfold u64. rewrite Z.mod_small by lia.
+    unfold bitlen_abs. destruct (mval v1 =? 0) eqn:E0.
+    + apply Z.eqb_eq in E0. rewrite E0. reflexivity.
+    + apply Z.eqb_neq in E0. rewrite Z.abs_eq by lia.
+      pose proof (Z.log2_nonneg (mval v1)). rewrite Z.max_r by lia. reflexivity.
+Qed.
+
+Theorem same_name_same_mint v1 v2 t1 t2 : fits v1 -> fits v2 -> mval v1 = mval v2 ->
+  exists m t1' t2', constant v1 t1 = CI t1' m /\ constant v2 t2 = CI t2' m /\
+    cname (constant v1 t1) = cname (constant v2 t2).
+Proof.
+  intros F1 F2 He. pose proof (BitLen_container v1 v2 F1 F2 He) as Hc. unfold contb in Hc.
+  unfold constant. rewrite Hc, He. do 3 eexists. repeat split.
+Qed.
+
+(* What a consumer receives from the shared entry.  c1 = CI t1 m is the constant
+   registered first under the name, CI t2 m a later constant of the same name;
+   Generator.Constant guarantees BitLen m <= Type.Bits of the entry.  Unless the
+   consumer's constant is a WIDER intN and the entry's top wire is 1 (then the
+   shared wires are sign-extended: finding F6k), the consumer receives exactly
+   the wires its own constant denotes. *)
+Theorem shared_wires_partial tbl t1 t2 m :
+  tlookup (mval m) tbl = Some (CI t1 m) -> 0 <= tbits t2 -> BitLen m <= tbits t1 ->
+  ~ (tk t2 = KInt /\ tbits t1 < tbits t2 /\ Z.testbit (const_wires (CI t1 m)) (tbits t1 - 1) = true) ->
+  lookup_wires tbl (CI t2 m) = const_wires (CI t2 m).
+Proof.
+  intros Hl Hw2 HL Hno. unfold lookup_wires. rewrite Hl. unfold extend_wires.
+  pose proof (BitLen_nonneg m) as HL0.
+  set (X := if isSmall m then small m else big m).
+  assert (C1 : const_wires (CI t1 m) = X mod 2 ^ BitLen m)
+    by (unfold const_wires; fold X; rewrite Z.min_r by lia; reflexivity).
+  assert (C2 : const_wires (CI t2 m) = X mod 2 ^ Z.min (tbits t2) (BitLen m)) by reflexivity.
+  simpl ctype. rewrite C2.
+  destruct (tbits t1 =? tbits t2) eqn:E1; [apply Z.eqb_eq in E1|apply Z.eqb_neq in E1].
+  - rewrite C1. rewrite Z.min_r by lia. reflexivity.
+  - destruct (tbits t2 <? tbits t1) eqn:E2; [apply Z.ltb_lt in E2|apply Z.ltb_ge in E2].
+    + rewrite C1. destruct (Z_le_gt_dec (BitLen m) (tbits t2)) as [Hc|Hc].
+      * rewrite Z.min_r by lia.
+        pose proof (Z.mod_pos_bound X (2 ^ BitLen m) ltac:(apply pow2_pos; lia)).
+        pose proof (pow2_le (BitLen m) (tbits t2) ltac:(lia)).
+        apply Z.mod_small; lia.
+      * rewrite Z.min_l by lia. apply mod_mod_pow2; lia.
+    + destruct (kind_eqb (tk t2) KInt && (0 <? tbits t1) && Z.testbit (const_wires (CI t1 m)) (tbits t1 - 1)) eqn:E3.
+      * exfalso. apply Hno. apply andb_true_iff in E3. destruct E3 as [E3 E5].
+        apply andb_true_iff in E3. destruct E3 as [E3 E4].
+        split; [destruct (tk t2); try discriminate; reflexivity|]. split; [lia|exact E5].
+      * rewrite C1. rewrite Z.min_r by lia. reflexivity.
+Qed.
+
+(* ... and the exception is real: uint32(0x40000000)+uint32(0x40000000) registered
+   first, int64(0x40000000)+int64(0x40000000) consumed later: both folds are in the
+   exact class, both constants are named 2147483648, and the second one is seen as
+   0xffffffff80000000. *)
+Theorem shared_constant_refuted :
+  exists c1 c2,
+    fold_exact_class OAdd KUint 32 (2 ^ 30) (2 ^ 30) = true /\
+    fold_exact_class OAdd KInt 64 (2 ^ 30) (2 ^ 30) = true /\
+    (do l <- typed KUint 32 (2 ^ 30); evalConst OAdd l l) = Ok c1 /\
+    (do l <- typed KInt 64 (2 ^ 30); evalConst OAdd l l) = Ok c2 /\
+    cname c1 = cname c2 /\
+    const_wires c2 = 2 ^ 31 /\
+    lookup_wires (intern (intern [] c1) c2) c2 = 2 ^ 64 - 2 ^ 31.
+Proof. do 2 eexists. repeat split; vm_compute; reflexivity. Qed.
+
+Example multi_f6k :
+  run_multi [ mkItem KUint 32 (EBin OAdd (ECast KUint 32 (ELit (2 ^ 30))) (ECast KUint 32 (ELit (2 ^ 30)))) 1 0;
+              mkItem KInt 64 (EBin OAdd (ECast KInt 64 (ELit (2 ^ 30))) (ECast KInt 64 (ELit (2 ^ 30)))) 1 0 ]
+  = Ok ([2 ^ 31; 2 ^ 31; 2 ^ 31; 2 ^ 31], [2 ^ 31; 2 ^ 64 - 2 ^ 31]).
+Proof. vm_compute. reflexivity. Qed.
